@@ -241,7 +241,19 @@ fn unhex(s: &str) -> Vec<u8> {
     (0..s.len() / 2).map(|i| u8::from_str_radix(&s[2 * i..2 * i + 2], 16).unwrap()).collect()
 }
 
-fn run_case(rep: &Report, id: iroh_base::EndpointId, c: &Case, register: bool) {
+type Local = std::collections::BTreeMap<&'static str, u64>;
+
+fn flush(rep: &Report, l: &Local) {
+    for (k, v) in l {
+        if *k == "__evals" {
+            rep.evals(*v);
+        } else {
+            rep.count(k, *v);
+        }
+    }
+}
+
+fn run_case(rep: &Report, l: &mut Local, id: iroh_base::EndpointId, c: &Case, register: bool) {
     let replay = case_json(c);
     let uri_s = match &c.query {
         Some(q) => format!("/relay?{q}"),
@@ -250,12 +262,12 @@ fn run_case(rep: &Report, id: iroh_base::EndpointId, c: &Case, register: bool) {
     let uri: http::Uri = match uri_s.parse() {
         Ok(u) => u,
         Err(_) => {
-            rep.count("skipped.uri-rejected-by-http-crate", 1);
+            *l.entry("skipped.uri-rejected-by-http-crate").or_default() += 1;
             return;
         }
     };
     if uri.query() != c.query.as_deref() {
-        rep.count("skipped.uri-query-normalised-by-http-crate", 1);
+        *l.entry("skipped.uri-query-normalised-by-http-crate").or_default() += 1;
         return;
     }
     let mut b = http::Request::builder().method("GET").uri(uri);
@@ -271,7 +283,7 @@ fn run_case(rep: &Report, id: iroh_base::EndpointId, c: &Case, register: bool) {
                     hm.append(AUTHORIZATION, v);
                 }
                 Err(_) => {
-                    rep.count("skipped.header-value-rejected-by-http-crate", 1);
+                    *l.entry("skipped.header-value-rejected-by-http-crate").or_default() += 1;
                     return;
                 }
             }
@@ -281,7 +293,7 @@ fn run_case(rep: &Report, id: iroh_base::EndpointId, c: &Case, register: bool) {
         }
     }
     let (parts, ()) = b.body(()).unwrap().into_parts();
-    rep.eval();
+    *l.entry("__evals").or_default() += 1;
     let req = ClientRequest::new(id, ProtocolVersion::V2, parts);
     let got = match catch(|| req.auth_token()) {
         Ok(g) => g,
@@ -301,10 +313,10 @@ fn run_case(rep: &Report, id: iroh_base::EndpointId, c: &Case, register: bool) {
         }
     }
     if allowed.len() > 1 {
-        rep.count("open.cases_with_more_than_one_allowed_outcome", 1);
+        *l.entry("open.cases_with_more_than_one_allowed_outcome").or_default() += 1;
     }
     if got == strict {
-        rep.count("strict_match", 1);
+        *l.entry("strict_match").or_default() += 1;
     }
     if !allowed.contains(&got) {
         let sig = match (why, &got, &strict) {
@@ -328,27 +340,27 @@ fn run_case(rep: &Report, id: iroh_base::EndpointId, c: &Case, register: bool) {
             let later_bearer = c.headers[i + 1..].iter().any(|h| h.len() >= 7 && h[..7].eq_ignore_ascii_case(b"bearer "));
             let qtok = q.is_some_and(|q| form_pairs(q).iter().any(|(n, _)| n == "token"));
             if later_bearer {
-                rep.count("decided.nontext.with_later_bearer_header", 1);
+                *l.entry("decided.nontext.with_later_bearer_header").or_default() += 1;
             }
             if qtok {
-                rep.count("decided.nontext.with_query_token", 1);
+                *l.entry("decided.nontext.with_query_token").or_default() += 1;
             }
             "decided.nontext_stop"
         }
         Why::Query(i) => {
             let pairs = form_pairs(q.unwrap());
             if pairs.iter().filter(|(n, _)| n == "token").count() > 1 {
-                rep.count("decided.query.several_token_params", 1);
+                *l.entry("decided.query.several_token_params").or_default() += 1;
             }
             let raw = q.unwrap();
             if !raw.contains(&format!("token={}", pairs[i].1)) {
-                rep.count("decided.query.decoding_changed_name_or_value", 1);
+                *l.entry("decided.query.decoding_changed_name_or_value").or_default() += 1;
             }
             if c.headers.is_empty() { "decided.query.no_headers" } else { "decided.query.after_non_bearer_headers" }
         }
         Why::Nothing => "decided.none",
     };
-    rep.count(key, 1);
+    *l.entry(key).or_default() += 1;
     let nontrivial = match why {
         Why::Bearer(i) => i > 0,
         Why::NonText(i) => i > 0 || c.headers.len() > 1 || q.is_some_and(|q| q.contains("token")),
@@ -356,7 +368,7 @@ fn run_case(rep: &Report, id: iroh_base::EndpointId, c: &Case, register: bool) {
         Why::Nothing => false,
     };
     if nontrivial {
-        rep.count("cases.nontrivial", 1);
+        *l.entry("cases.nontrivial").or_default() += 1;
     }
     if nontrivial && register {
         rep.nontrivial(replay.to_string().as_bytes());
@@ -382,7 +394,9 @@ fn main() {
             decoys: r["decoys"].as_bool().unwrap_or(false),
             query: r["query"].as_str().map(|s| s.to_string()),
         };
-        run_case(&rep, id, &c, true);
+        let mut l = Local::new();
+        run_case(&rep, &mut l, id, &c, true);
+        flush(&rep, &l);
         rep.finish();
         return;
     }
@@ -394,6 +408,7 @@ fn main() {
             let a = &a;
             s.spawn(move || {
                 let mut rng = Rng::derive(a.seed, "C12", shard);
+                let mut l = Local::new();
                 for n in 0..per_thread {
                     let nh = match rng.below(10) {
                         0 => 0,
@@ -407,11 +422,12 @@ fn main() {
                         decoys: rng.chance(1, 4),
                         query: gen_query(&mut rng),
                     };
-                    run_case(rep, id, &c, n < 300_000);
+                    run_case(rep, &mut l, id, &c, n < 300_000);
                     if n % 4096 == 0 && rep.violation_count() > 100 {
                         break;
                     }
                 }
+                flush(rep, &l);
             });
         }
     });
